@@ -181,8 +181,10 @@ func (d *deadliner) run(ctx context.Context, deadlineFunc DeadlineFunc) {
 				continue
 			}
 
-			// Ignore (and signal) duties that have already expired.
-			if deadline.Before(d.clock.Now()) {
+			// Ignore (and signal) duties that have already expired. A duty whose deadline is exactly now
+			// counts as expired: it may already have been emitted on C() at this very instant, and
+			// scheduling it again would emit it a second time.
+			if !deadline.After(d.clock.Now()) {
 				input.success <- DeadlineExpired
 				continue
 			}
